@@ -84,6 +84,37 @@ def aba_family():
     return progs
 
 
+def pers_lww_family():
+    """Persistent store, the key's value offloaded to the device: a read-then-replace operation with an
+    explicit timestamp T races with an upsert carrying a NEWER timestamp and the flush that writes it
+    and retires the generation the operation has read.  Whatever the operation is handed when its disk
+    read goes stale, it must not publish T on top of the newer generation."""
+    progs = []
+    ctr_new = {"k": "i", "id": 0, "len": 8, "n": 50}
+    points = ["inc_read", "inc_guard", "cas_read", "cas_cmp", "jp_read", "jp_apply", "resolve_cache", "resolve_retry",
+              "rd_pinned", "rd_sector", "upd_guard", "upd_post", "wb_alloc", "wb_device", "ret_device", "ret_release"]
+    for cache in (False, True):
+        cfg = {"pers": True, "ttl": True, "lim": -1, "cache": cache, "blocks": 40}
+        inits = {
+            "counter": ([{"op": "insert", "k": 1, "v": C5, "auto": False, "tsv": NOW - 10 * E9}, {"op": "flush"}],
+                        [("incr2", OPS["incr2"]), ("cas_ctr_new", {"op": "cas", "k": 1, "x": C5, "v": B2, "auto": False, "tsv": NOW + 1})],
+                        {"op": "insert", "k": 1, "v": ctr_new, "auto": False, "tsv": NOW + 7}),
+            "doc": ([{"op": "insert", "k": 1, "v": D1, "auto": False, "tsv": NOW - 10 * E9}, {"op": "flush"}],
+                    [("patch_new", {"op": "patch", "k": 1, "ps": 3, "pt": -1, "auto": False, "tsv": NOW + 2})],
+                    {"op": "insert", "k": 1, "v": {"k": "d", "id": 0, "len": 7, "n": 4}, "auto": False, "tsv": NOW + 7}),
+        }
+        for iname, (init, readers, newer) in inits.items():
+            for rn, r in readers:
+                for same in (False, True):
+                    w = dict(newer)
+                    if same:
+                        w["tsv"] = r["tsv"]          # an equal timestamp is not newer either
+                    progs.append(("perslww|%s|%s|%s|%s" % ("c" if cache else "n", iname, rn, "eq" if same else "gt"),
+                                  {"cfg": cfg, "keys": ["k1"], "init": init, "points": points,
+                                   "threads": [[r], [w, {"op": "flush"}]]}))
+    return progs
+
+
 def range_family():
     progs = []
     keys = ("ka", "kb", "kc")
